@@ -62,8 +62,28 @@ let () =
                     else "ReadData: control replies are not exactly those RFC 6455 asks for, in order")
             else (match exp_res with
               | Some er ->
-                if res_class = er then Pass true
-                else Viol (if cut_kind then "ReadData on a cut stream returned a wrong result" else "ReadData returned the wrong message/result")
+                if res_class <> er then
+                  Viol (if cut_kind then "ReadData on a cut stream returned a wrong result" else "ReadData returned the wrong message/result")
+                else if cut_kind then Pass true
+                else begin
+                  (* model of helper.go:readData on the same bytes *)
+                  let data = wire fs in
+                  let s = K_reader.mk_src data spec tail in
+                  let wantn = ni (match want with "text" -> 1 | "binary" -> 2 | _ -> 3) in
+                  let masks = K_writer.masks_of (List.concat log) in
+                  let fuel = nat_of_int (2 * List.length data + 4 * List.length fs + 50) in
+                  let (mres, mlog) = ReadData.read_data_call fuel wantn state s masks in
+                  let mres_s = (match mres with
+                    | ReadData.RDData (op, p) -> Printf.sprintf "data:%d:%s" (int_of_n op) (hex_of_bytes p)
+                    | ReadData.RDHandler (HClosed (c, r)) -> Printf.sprintf "closed:%d:%s" (int_of_n c) (hex_of_bytes r)
+                    | ReadData.RDHandler (HProto _) -> "proto"
+                    | ReadData.RDHandler _ -> "handler"
+                    | ReadData.RDErr e -> "err:" ^ K_reader.string_of_rerror e) in
+                  if not (ReadData.rx_monitor state wantn fs mres mlog) then Diff "model of readData does not satisfy the Coq monitor (model/spec bug)"
+                  else if mres_s <> res_class then Diff ("model of readData returns " ^ mres_s)
+                  else if List.concat mlog <> List.concat log then Diff "model of readData writes different replies"
+                  else Pass true
+                end
               | None ->
                 (* no wanted message (or close) wholly present: must be an error *)
                 let is_err = String.length res >= 3 && (String.sub res 0 3 = "io:" || String.sub res 0 4 = "err:") in
